@@ -16,6 +16,7 @@
 #include <cstring>
 #include <fstream>
 #include <iostream>
+#include <memory>
 #include <optional>
 #include <sstream>
 #include <string>
@@ -141,12 +142,68 @@ struct psender
     }
 };
 
+// a sender that completes with an L-VALUE REFERENCE to a string it keeps in a cell shared by its copies
+// (like then(f) with f returning T& into a cache): the wrapper must deliver a copy and leave the cell alone
+struct str_receiver
+{
+    PIKA_STDEXEC_RECEIVER_CONCEPT
+    std::string* out;
+    int* sig;
+    void set_value(std::string v) && noexcept
+    {
+        *out = std::move(v);
+        *sig = 1;
+    }
+    void set_error(std::exception_ptr) && noexcept { *sig = 2; }
+    void set_stopped() && noexcept { *sig = 3; }
+    constexpr ex::empty_env get_env() const& noexcept { return {}; }
+};
+template <typename P>
+struct rsender
+{
+    PIKA_STDEXEC_SENDER_CONCEPT
+    P p;
+    std::shared_ptr<std::string> cell;
+    template <template <typename...> class Tuple, template <typename...> class Variant>
+    using value_types = Variant<Tuple<std::string&>>;
+    template <template <typename...> class Variant>
+    using error_types = Variant<std::exception_ptr>;
+    static constexpr bool sends_done = false;
+    using completion_signatures =
+        ex::completion_signatures<ex::set_value_t(std::string&), ex::set_error_t(std::exception_ptr)>;
+    template <typename R>
+    struct op
+    {
+        P p;
+        std::shared_ptr<std::string> cell;
+        std::decay_t<R> r;
+        void start() & noexcept
+        {
+            (void) p();
+            ex::set_value(std::move(r), *cell);
+        }
+    };
+    template <typename R>
+    op<R> connect(R&& r) &&
+    {
+        return op<R>{std::move(p), cell, std::forward<R>(r)};
+    }
+    template <typename R, typename PP = P, typename = std::enable_if_t<std::is_copy_constructible_v<PP>>>
+    op<R> connect(R&& r) const&
+    {
+        return op<R>{p, cell, std::forward<R>(r)};
+    }
+};
+static std::string cell_text(int v) { return "value-" + std::to_string(v) + "-0123456789abcdefghijklmnopqrstuvwxyz"; }
+
 enum kind_t
 {
     k_function,
     k_unique_function,
     k_any_sender,
-    k_unique_any_sender
+    k_unique_any_sender,
+    k_any_sender_ref,
+    k_unique_any_sender_ref
 };
 
 struct step
@@ -208,6 +265,64 @@ struct traits<k_unique_any_sender>
             ex::start(o);
         }
         return out;
+    }
+    static constexpr bool copyable = false;
+};
+
+// the same wrappers around reference-sending senders.  An invocation yields val * 100 (a fresh copy of the
+// contained sender is connected each time, so its call counter starts at 0) if the delivered string is the
+// cell's text AND the cell is unchanged afterwards, -8 otherwise
+static std::vector<std::shared_ptr<std::string>> g_cells;    // cell of the object created with val v
+static int ref_result(int sig, std::string const& got)
+{
+    if (sig != 1) return -2;
+    for (std::size_t v = 1; v < g_cells.size(); ++v)
+        if (g_cells[v] && got == cell_text((int) v)) return *g_cells[v] == cell_text((int) v) ? (int) v * 100 : -8;
+    return -8;
+}
+template <>
+struct traits<k_any_sender_ref>
+{
+    using W = ex::any_sender<std::string>;
+    template <typename P>
+    static W mk(int v)
+    {
+        if ((int) g_cells.size() <= v) g_cells.resize(v + 1);
+        g_cells[v] = std::make_shared<std::string>(cell_text(v));
+        return W(rsender<P>{P(v), g_cells[v]});
+    }
+    static W make(int v, bool big) { return big ? mk<payload<96>>(v) : mk<payload<0>>(v); }
+    static int invoke(W& w)
+    {
+        std::string out;
+        int sig = 0;
+        auto o = ex::connect(w, str_receiver{&out, &sig});
+        ex::start(o);
+        return ref_result(sig, out);
+    }
+    static constexpr bool copyable = true;
+};
+template <>
+struct traits<k_unique_any_sender_ref>
+{
+    using W = ex::unique_any_sender<std::string>;
+    template <typename P>
+    static W mk(int v)
+    {
+        if ((int) g_cells.size() <= v) g_cells.resize(v + 1);
+        g_cells[v] = std::make_shared<std::string>(cell_text(v));
+        return W(rsender<P>{P(v), g_cells[v]});
+    }
+    static W make(int v, bool big) { return big ? mk<mo_payload<96>>(v) : mk<mo_payload<0>>(v); }
+    static int invoke(W& w)
+    {
+        std::string out;
+        int sig = 0;
+        {
+            auto o = ex::connect(std::move(w), str_receiver{&out, &sig});
+            ex::start(o);
+        }
+        return ref_result(sig, out);
     }
     static constexpr bool copyable = false;
 };
@@ -328,6 +443,8 @@ int main(int argc, char** argv)
         else if (kind == "unique_function") err = run_case<k_unique_function>(steps, nslots);
         else if (kind == "any_sender") err = run_case<k_any_sender>(steps, nslots);
         else if (kind == "unique_any_sender") err = run_case<k_unique_any_sender>(steps, nslots);
+        else if (kind == "any_sender_ref") err = run_case<k_any_sender_ref>(steps, nslots);
+        else if (kind == "unique_any_sender_ref") err = run_case<k_unique_any_sender_ref>(steps, nslots);
         else return 2;
         if (!err.empty())
         {
